@@ -39,7 +39,7 @@ func panicSig(kind, p string) string {
 
 func (o *c20) Step(r *StepRec) []Violation {
 	a := r.Action
-	if r.Panic != "" {
+	if r.Panic != "" && a.Kind != KRestart { // a failing zero-height export is C19's business
 		kind := a.Kind
 		if a.Kind == KTx {
 			kind = "tx"
